@@ -514,6 +514,13 @@ func opaqueKidsAll() []*tree.Item {
 		&tree.Item{Tag: 0x54000C, Kind: tree.KText},
 		&tree.Item{Tag: 0x54000D, Kind: tree.KBytes},
 		&tree.Item{Tag: 0x54000E, Kind: tree.KBool},
+		// standard elements inside an opaque payload stay opaque too: no typed dispatch below an unknown operation
+		// (the Name attribute here has a value that the typed decoder would reject)
+		&tree.Item{Tag: kmip.TagUniqueIdentifier, Kind: tree.KText, Data: []byte("id")},
+		&tree.Item{Tag: kmip.TagObjectType, Kind: tree.KEnum, Int: 2},
+		&tree.Item{Tag: kmip.TagObjectType, Kind: tree.KEnum, Int: 0x3F},
+		attrTree("Name", &tree.Item{Tag: kmip.TagAttributeValue, Kind: tree.KInt, Int: 5}),
+		attrTree("Cryptographic Length", &tree.Item{Tag: kmip.TagAttributeValue, Kind: tree.KText, Data: []byte("long")}),
 	)
 }
 
